@@ -1,6 +1,6 @@
 (* C14 (set half) — non-vacuity examples for Props.v *)
 From Coq Require Import NArith List Bool Lia Sorting.Sorted.
-From FV Require Import C14.Model C14.Proofs C14.SetObs C14.SetDom C14.SetRange C14.SetRangeU.
+From FV Require Import C14.Model C14.Proofs C14.SetObs C14.SetDom C14.SetRange C14.SetRangeU C14.SetL0 C14.SetL0Proofs.
 Import ListNotations.
 Open Scope N_scope.
 
@@ -59,3 +59,12 @@ Example c14_ex_members_list : members 7 (fun v => negb (v =? 3)) = [0; 1; 2; 4; 
 Proof. vm_compute. reflexivity. Qed.
 Example c14_ex_ops_in_dom : Forall (op_in_dom 4294967295) ex_ops.
 Proof. repeat constructor; cbn; lia. Qed.
+
+(* L0: the hypotheses of the in-place refinement theorems hold of states with scrambled page indices *)
+Example c14_ex_inv0 : Inv0 exA /\ Inv0 exB.
+Proof.
+  split; (split; [reflexivity|]); (split; [repeat constructor; cbn; intuition discriminate|]);
+    (split; [repeat constructor; cbn; lia|]); repeat constructor; unfold klt'; cbn; reflexivity.
+Qed.
+Example c14_ex_process0 : abs0 (process0 N.ldiff exA exB) = [(2, 1); (4, 4); (7, 7); (9, 2)] /\ length (pages0 (process0 N.ldiff exA exB)) = 4%nat.
+Proof. vm_compute. split; reflexivity. Qed.
